@@ -39,6 +39,46 @@ pub enum AnyT {
 
 /// kind: "model" | "mmio" | "pci" | "pcicam"; `legacy` selects the legacy layout / MMIO version 1.
 pub fn make(transport: &str, kind: &str, offered: u64, legacy: bool, max_queue: u32, cfg: Vec<u8>) -> AnyT {
+    // C07: arbitrary configuration-space values (and queue size limits) from a misbehaving device
+    let (cfg, max_queue) = crate::core::with_world(|w| match w.adv.as_mut() {
+        None => (cfg.clone(), max_queue),
+        Some(a) => {
+            use rand::Rng;
+            let mut c = cfg.clone();
+            match a.rng.gen_range(0..100) {
+                0..=39 => {}
+                40..=59 => a.rng.fill(&mut c[..]),
+                60..=74 => c.iter_mut().for_each(|b| *b = 0xff),
+                75..=84 => c.iter_mut().for_each(|b| *b = 0),
+                _ => {
+                    for _ in 0..3 {
+                        if !c.is_empty() {
+                            let k = a.rng.gen_range(0..c.len());
+                            c[k] = [0u8, 1, 0x7f, 0x80, 0xff][a.rng.gen_range(0..5)];
+                        }
+                    }
+                }
+            }
+            if kind == "sound" && c.len() >= 12 {
+                // VirtIOSound::new allocates one record per advertised stream: values that exhaust
+                // the machine's memory end in the allocator's abort, which is resource exhaustion
+                // and not what C07 is about (see DESIGN.md) - keep the three counts below 2^16
+                for k in 0..3 {
+                    c[4 * k + 2] = 0;
+                    c[4 * k + 3] = 0;
+                }
+            }
+            let mq = match a.rng.gen_range(0..12) {
+                0 => 0,
+                1 => 1,
+                2 => 3,
+                3 => 65535,
+                _ => max_queue,
+            };
+            *a.counts.entry("config").or_default() += 1;
+            (c, mq)
+        }
+    });
     let nq = zoo::num_queues(kind);
     let dt = zoo::device_type(kind);
     if transport.starts_with("pci") {
